@@ -7,6 +7,7 @@ by the wrappers, RNG draws and annealing proposals are recorded and handed to th
 Lean specification `Feasible` (decidable form `checkPlacement`) evaluated on every placement any
 placer returns - including the opaque C annealing kernel."""
 import random as _random
+from harness import c02_names
 
 CLAIM = dict(
     text=("Machine-checked proof (Lean 4) over ALL vertex/resource dictionaries, machines (dead chips, resource "
@@ -102,6 +103,8 @@ def gen_problem(rng, big=False, unit=False, ood=False):
             d = [0] * R
             d[r0] = rng.choice([0, 1, 1, 1])
             present = [True] * R if rng.random() < 0.5 else [i == r0 for i in range(R)]
+            if d[r0] == 0 and rng.random() < 0.4:
+                present = [False] * R           # a vertex needing nothing, written {}
         else:
             d = [rng.choice([0, 0, 1, 1, 1, 2, 3]) for _ in range(R)]
             present = [rng.random() < 0.8 for _ in range(R)]
@@ -209,6 +212,39 @@ def gen_problem(rng, big=False, unit=False, ood=False):
     extras = [list(c) for c in dead[:2]] + [[w + 1, 0]]
     for e in extras:
         co.insert(rng.randrange(len(co) + 1), tuple(e))
+    # a good share of problems that cannot be placed at all, so that every placer's failure paths run (with
+    # vertices named by arbitrary objects): the only acceptable outcomes remain the two documented errors
+    if n and not unit and not ood and rng.random() < 0.22:
+        twist = rng.choice(["too-few", "too-few", "oversized", "oversized", "group"])
+        if twist == "too-few":
+            k = rng.choice([2, 3, 100])
+            prob["res"] = [x // k for x in res]
+            prob["exc"] = [[c, [x // k for x in r]] for c, r in exc]
+        elif twist == "oversized":
+            v = rng.randrange(n)
+            i = rng.randrange(R)
+            top = max([res[i]] + [r[i] for _, r in exc])
+            vr[v][1][i] = top + 1 + rng.randrange(3)
+            vr[v][2][i] = True
+        else:
+            used = set()
+            for c in cs:
+                used.update(c.get("vs", []))
+                if "v" in c:
+                    used.add(c["v"])
+            free = [v for v in range(n) if v not in used]
+            if len(free) >= 2:
+                g = rng.sample(free, min(len(free), rng.choice([2, 3, 4])))
+                i = rng.randrange(R)
+                top = max([res[i]] + [r[i] for _, r in exc])
+                for v in g:
+                    vr[v][1][i] = max(vr[v][1][i], top // len(g) + 1)
+                    vr[v][2][i] = True
+                cs.insert(rng.randrange(len(cs) + 1), {"t": "same", "vs": g})
+        prob["twist"] = twist
+    if R < 3:
+        prob["foreign_zero"] = [v for v, d, _ in vr if not any(d) and rng.random() < 0.3]
+    c02_names.draw(rng, prob)
     prob["vo"] = vo
     prob["co"] = [list(c) for c in co]
     prob["seeds"] = [rng.randrange(2 ** 30) for _ in range(4)]
@@ -284,9 +320,9 @@ def unit_ok(prob, r0):
 # python objects
 # ---------------------------------------------------------------------------
 
-def resources():
-    from rig.place_and_route import Cores, SDRAM, SRAM
-    return [Cores, SDRAM, SRAM]
+def resources(prob=None):
+    """the resource objects of a problem (rig's Cores/SDRAM/SRAM unless the problem names others)"""
+    return c02_names.resources(prob)
 
 
 def build(prob):
@@ -297,7 +333,8 @@ def build(prob):
     from rig.routing_table import Routes
     from rig.netlist import Net
     import collections
-    RES = resources()
+    RES = resources(prob)
+    nm = c02_names.Namer(prob)      # vertex index -> the object naming it (see c02_names)
     R = len(prob["res"])
     dr = lambda l: collections.OrderedDict((RES[i], l[i]) for i in range(R))
     # the key order of a resource dictionary carries no meaning: exceptions (and vertex demands) are
@@ -311,21 +348,24 @@ def build(prob):
                       dead_chips={tuple(c) for c in prob["dead"]},
                       dead_links={(x, y, Links(l)) for x, y, l in prob.get("dead_links", [])})
     vr = collections.OrderedDict()
+    fz = set(prob.get("foreign_zero", []))
     for v, d, present in prob["vr"]:
-        rot = (hash(v) if isinstance(v, int) else len(str(v))) % R
-        vr[v] = {RES[i]: d[i] for i in [(j + rot) % R for j in range(R)] if present[i]}
-    nets = [Net(s, list(k), wt) for s, k, wt in prob["nets"]]
+        rot = v % R
+        vr[nm.obj(v)] = {RES[i]: d[i] for i in [(j + rot) % R for j in range(R)] if present[i]}
+        if v in fz and R < len(RES):
+            vr[nm.obj(v)][RES[R]] = 0           # names only a resource the machine lacks, and needs none of it
+    nets = [Net(nm.obj(s), [nm.obj(x) for x in k], wt) for s, k, wt in prob["nets"]]
     cs = []
     for c in prob["cs"]:
         if c["t"] == "loc":
-            cs.append(LocationConstraint(c["v"], tuple(c["c"])))
+            cs.append(LocationConstraint(nm.obj(c["v"]), tuple(c["c"])))
         elif c["t"] == "same":
-            cs.append(SameChipConstraint(list(c["vs"])))
+            cs.append(SameChipConstraint([nm.obj(v) for v in c["vs"]]))
         elif c["t"] == "res":
             cs.append(ReserveResourceConstraint(RES[c["r"]], slice(3, 3 + c["amt"]),
                                                 None if c["c"] is None else tuple(c["c"])))
         elif c["t"] == "ep":
-            cs.append(RouteEndpointConstraint(c["v"], Routes.north))
+            cs.append(RouteEndpointConstraint(nm.obj(c["v"]), Routes.north))
         else:
             cs.append(AlignResourceConstraint(RES[0], 4))
     return vr, nets, machine, cs
@@ -376,14 +416,19 @@ def outcome(fn):
     try:
         return {"ok": fn()}
     except Exception as e:      # noqa - every exception type is part of the observation
-        return {"err": type(e).__name__, "msg": str(e)[:200]}
+        try:
+            msg = str(e)[:200]
+        except Exception:       # noqa - an exception whose text cannot be rendered is still identified by its type
+            msg = "<message not printable>"
+        return {"err": type(e).__name__, "msg": msg}
 
 
 def enc_vertex(v, merged=None):
-    if isinstance(v, int) and not isinstance(v, bool):
-        return v
     if merged is not None and id(v) in merged:
         return {"m": merged[id(v)]}
+    i = c02_names.index_of(v)
+    if i is not None:
+        return i
     return {"m": 99999}
 
 
@@ -433,7 +478,9 @@ def run_placers(prob):
     # sequential, custom orders
     vr, nets, machine, cs = build(prob)
     co = [tuple(c) for c in prob["co"]]
-    add("sequential-custom", outcome(lambda: sequential.place(vr, nets, machine, cs, list(prob["vo"]), iter(co))),
+    keys = list(vr)
+    add("sequential-custom", outcome(lambda: sequential.place(vr, nets, machine, cs, [keys[v] for v in prob["vo"]],
+                                                              iter(co))),
         dict(base, op="seq", vo=prob["vo"], co=prob["co"]))
 
     # wrappers: capture what they hand to the sequential placer
@@ -461,7 +508,8 @@ def run_placers(prob):
         req = None
         if len(cap) == 1:
             vo, co_ = cap[0]
-            ok_vo = vo is None or all(isinstance(v, int) for v in vo)
+            vo = None if vo is None else [c02_names.index_of(v) for v in vo]
+            ok_vo = vo is None or all(v is not None for v in vo)
             if ok_vo:
                 req = dict(base, op="seq", vo=vo, co=None if co_ is None else nonneg_chips(co_))
         add(name, out, req, captured=len(cap),
@@ -561,7 +609,7 @@ def utils_requests(prob):
     from rig.place_and_route.place import utils
     from rig.place_and_route.constraints import (LocationConstraint, SameChipConstraint,
                                                  ReserveResourceConstraint, RouteEndpointConstraint)
-    RES = resources()
+    RES = resources(prob)
     R = len(prob["res"])
     base = lean_problem(prob)
     out = []
@@ -731,6 +779,9 @@ def eval_problems(ctx, probs):
             ctx.tag("unit-hypothesis")
         if prob["ood"]:
             ctx.tag("out-of-domain")
+        if prob.get("twist"):
+            ctx.tag("infeasible-twist:" + prob["twist"])
+        ctx.tag("names:%s" % (prob.get("names") or "plain"), "res-names:%s" % (prob.get("res_names") or "rig"))
         ctx.case(desc, nontriv)
 
 
@@ -790,10 +841,10 @@ def gen_hetero(rng, size, ring):
     rng.shuffle(vo)
     co = list(working)
     rng.shuffle(co)
-    return {"w": size, "h": size, "res": [1], "exc": [], "dead": [], "vr": vr, "nets": nets, "cs": [],
+    return c02_names.draw(rng, {"w": size, "h": size, "res": [1], "exc": [], "dead": [], "vr": vr, "nets": nets, "cs": [],
             "ood": False, "unit": False, "vo": vo, "co": [list(c) for c in co],
             "seeds": [rng.randrange(2 ** 30) for _ in range(4)], "effort": 1.0, "max_temps": None,
-            "hilbert_bf": rng.random() < 0.5, "unit_r0": 0}
+            "hilbert_bf": rng.random() < 0.5, "unit_r0": 0})
 
 
 from harness import c02_orders
@@ -801,19 +852,19 @@ from harness import c02_kernel
 from harness import c02_sessions
 THEOREMS = THEOREMS + c02_orders.THEOREMS_ORDERS
 CLAIM = dict(CLAIM, text=CLAIM["text"] + " " + c02_orders.CLAIM_ORDERS + " " + c02_kernel.CLAIM_KERNEL + " " +
-             c02_sessions.CLAIM_SESSIONS,
+             c02_sessions.CLAIM_SESSIONS + " " + c02_names.CLAIM_NAMES,
              note=CLAIM["note"] + " " + c02_orders.NOTE_ORDERS)
 
 
 def run(ctx):
     ctx.extra["rule"] = RULE + " " + c02_orders.RULE_ORDERS + " " + c02_kernel.RULE_KERNEL + " " + \
-        c02_sessions.RULE_SESSIONS
+        c02_sessions.RULE_SESSIONS + " " + c02_names.RULE_NAMES
     hilbert_checks(ctx)
     c02_orders.run_orders(ctx)
     ctx.extra["trusted_base"] = ["rig_c_sa (compiled annealing kernel outside /repo): opaque, checked only by the Feasible oracle",
                                  "the annealer's float cost/temperature arithmetic is abstracted to the recorded accept decision"]
     ctx.assumptions += [
-        "vertices demand only resources the machine defines; every resource exception lists the machine's resources",
+        "vertices demand (a non-zero amount of) only resources the machine defines - a demand of 0 of a resource the machine lacks is generated; every resource exception lists the machine's resources",
         "resource exceptions and per-chip reservations name working chips (otherwise IndexError: out-of-domain stream, DESIGN F16)",
         "a same-chip group is location-constrained to at most one chip; constraints mention only known vertices",
         "custom vertex orders are permutations of the vertices (documented precondition of sequential.place)",
